@@ -309,3 +309,39 @@ def other_iface_variants(text, rng, n, stride=None):
         out.append('scenario %s_oth' % name)
         out += lines[:k] + [c1.line()] + burst(100) + rest[:mid] + burst(200) + rest[mid:]
     return '\n'.join(out) + '\n'
+
+
+# ------------------------------------------------------------------ what the frame-level properties quantify over
+def in_domain(ops):
+    """True if a history (operation lines) stays inside the domain the frame-level oracles are written for: LLTD frames
+    (EtherType 0x88D9, version 1) at least a base header long, Discovers long enough to carry their generation, commands
+    (Emit, Query, QueryLargeTlv) addressed to this station and sent by the station that opened the session (any station
+    while none is open), address getters working.  Outside it - e.g. a request for another station, a foreign protocol
+    version - the properties leave the reaction open (answering and dropping are both fine), so only the comparison
+    with the proved model and the crash / well-formedness judgements apply to such a history."""
+    own = {}; mapper = {}
+    for l in ops:
+        t = l.split()
+        if not t: continue
+        if t[0] == 'cfg' and len(t) > 1 and t[1] != 'g':
+            kv = dict(x.split('=', 1) for x in t[2:] if '=' in x)
+            if kv.get('macfail', '0') != '0' or 'macfailat' in kv: return False
+            if 'mac' in kv: own[t[1]] = bytes.fromhex(kv['mac'])
+        if t[0] in ('failalloc', 'failsend') : return False
+        if t[0] != 'frame' or len(t) < 4: continue
+        b = V.unhex(t[3]); c = t[1]
+        if len(b) < 32 or b[12:14] != b'\x88\xd9' or b[14] != 1: return False
+        tos, opc, rdst, rsrc = b[15], b[17], b[18:24], b[24:30]
+        if tos not in (0, 1): continue
+        if opc == 0 and len(b) < 36: return False
+        if opc == 8: mapper[c] = None
+        elif opc == 0:
+            if mapper.get(c) is None: mapper[c] = rsrc
+        elif opc in (2, 6, 0x0B):
+            me = own.get(c, bytes([2, 0, 0, 0, 0, 0x10 + int(c)]) if c.isdigit() else OWN0)
+            if rdst != me: return False
+            if mapper.get(c) is not None and rsrc != mapper[c]: return False
+            if mapper.get(c) is None: mapper[c] = rsrc
+            if opc == 2 and len(b) < 34: return False
+            if opc == 0x0B and len(b) < 36: return False
+    return True
